@@ -30,6 +30,7 @@ type StressOpts struct {
 	SyncW    bool // sync after every write (BackgroundSyncInterval = -1)
 	HoldBG   bool // park the background compaction at its first yield point and call Close meanwhile (C10: Close waits for it)
 	Grow     bool // workers mostly insert NEW keys: the index splits while compaction and scans run
+	Big      bool // values of 1-4 MiB: copying one out takes about a millisecond, every put gets its own segment
 	Seed     int64
 	MaxSeg   uint32
 }
@@ -129,8 +130,11 @@ func Stress(rec *Rec, o StressOpts) StressResult {
 				if r.Intn(6) == 0 {
 					vl = 300 + r.Intn(900)
 				}
+				if o.Big && r.Intn(4) != 0 {
+					vl = (1 + r.Intn(4)) << 20
+				}
 				op = Op{Op: "put", K: k, V: fmt.Sprintf("w%d_%d_", t, i), VL: vl}
-			case x < 50:
+			case x < 50 && !(o.Big && x >= 40):
 				op = Op{Op: "del", K: k}
 			case x < 75:
 				op = Op{Op: "get", K: k}
